@@ -87,7 +87,7 @@ func cmdRun(args []string) int {
 		}
 	}
 	sort.Slice(hs, func(i, j int) bool { return hs[i].Name() < hs[j].Name() })
-	conf := sx.Config{Unwind: *unwind, MaxSteps: *steps, MaxPaths: *paths, MaxTime: *maxTime, SolverKind: *solverKind, SolverMS: *solverMS}
+	conf := sx.Config{Unwind: *unwind, MaxSteps: *steps, MaxPaths: *paths, MaxTime: *maxTime, SolverKind: *solverKind, SolverMS: *solverMS, BranchMS: 1500}
 	t0 := time.Now()
 	pool, err := w.NewPool(conf, sp, *workers)
 	if err != nil {
